@@ -18,13 +18,14 @@ extern('Event.wait', params={'self': 'Event', 'timeout': 'Opt[Real]'}, defaults=
        returns='Bool', yields=True, modifies=['self.flag'],
        notes='blocks until set or timeout; yield point')
 
-klass('Semaphore', fields={'counter': 'Int'})
+# ghost `held`: the greenlet that runs the function under verification holds the semaphore (used as a lock)
+klass('Semaphore', fields={'counter': 'Int'}, ghost={'held': 'Bool'})
 extern('Semaphore.acquire', params={'self': 'Semaphore'}, returns='Bool', yields=True,
-       modifies=['self.counter'],
-       ensures=['self.counter == old(self.counter) - 1 or old(self.counter) == 0', 'self.counter >= 0'],
+       modifies=['self.counter', 'self.held'],
+       ensures=['self.counter == old(self.counter) - 1 or old(self.counter) == 0', 'self.counter >= 0', 'self.held'],
        notes='yields iff counter == 0')
-extern('Semaphore.release', params={'self': 'Semaphore'}, modifies=['self.counter'],
-       ensures=['self.counter == old(self.counter) + 1'])
+extern('Semaphore.release', params={'self': 'Semaphore'}, modifies=['self.counter', 'self.held'],
+       ensures=['self.counter == old(self.counter) + 1', 'not self.held'])
 
 
 def _time_time(st, args, kw):
